@@ -111,3 +111,23 @@ Definition run_file (cfg : scfg) (ticks : list N) (ops : list op) : list (obs * 
 
 Definition final_file (cfg : scfg) (ticks : list N) (ops : list op) : file_store * issued fid :=
   final_impl fid fid_eqb file_store (exec_file cfg) (file_init ticks, []) ops.
+
+(** Re-opening the store on the same path with ANOTHER configuration (file.New reads nothing from
+    the disk; the cap is a field of the Store object): the disk — the model's state — carries
+    over, the cap changes. A history in segments, each with its own configuration. *)
+Definition run_file_from (cfg : scfg) (st : file_store * issued fid) (ops : list op) : list (obs * list event) :=
+  run_impl fid fid_eqb file_store (exec_file cfg) st ops.
+Definition final_file_from (cfg : scfg) (st : file_store * issued fid) (ops : list op) : file_store * issued fid :=
+  final_impl fid fid_eqb file_store (exec_file cfg) st ops.
+
+Fixpoint run_file_segs (st : file_store * issued fid) (segs : list (scfg * list op)) : list (list (obs * list event)) :=
+  match segs with
+  | [] => []
+  | (cfg, ops) :: r => run_file_from cfg st ops :: run_file_segs (final_file_from cfg st ops) r
+  end.
+
+Fixpoint run_spec_segs (st : spec_store) (segs : list (scfg * list op)) : list (list (obs * list event)) :=
+  match segs with
+  | [] => []
+  | (cfg, ops) :: r => run_spec cfg st ops :: run_spec_segs (final_spec cfg st ops) r
+  end.
